@@ -44,7 +44,13 @@
 (* the queue, or notices the end and closes), Read, Write, Close.             *)
 EXTENDS Integers, Sequences, FiniteSets, TLC
 
-CONSTANTS MaxEv, MaxRead, MaxWrite
+CONSTANTS
+  \* @type: Int;
+  MaxEv,
+  \* @type: Int;
+  MaxRead,
+  \* @type: Int;
+  MaxWrite
 
 Statuses == {"ok", "http3", "http4", "http5", "neterr"}
 Firsts   == {"endpoint", "message", "noname", "garbled", "eof", "err"}
@@ -54,17 +60,30 @@ Ends     == {"eof", "err", "cutdata", "cutblank"}
 WrKinds  == {"202", "200", "204", "3xx", "4xx", "5xx", "neterr"}
 Is2xx(w) == w \in {"202", "200", "204"}
 
-VARIABLES ph,       \* "init" | "connecting" | "up" | "failed" | "closed"
+VARIABLES
+          \* @type: Str;
+          ph,       \* "init" | "connecting" | "up" | "failed" | "closed"
+          \* @type: Str;
           ep,       \* endpoint kind received ("" before)
+          \* @type: Bool;
           hasBody,  \* a GET response body exists
+          \* @type: Bool;
           bodyClosed,
+          \* @type: Seq(Str);
           stream,   \* events the server has written after the first one
+          \* @type: Str;
           ended,    \* "" or how the server ended the stream
+          \* @type: Int;
           nscan,    \* events the reader goroutine has consumed
+          \* @type: Bool;
           rdone,    \* the reader goroutine has finished
+          \* @type: Seq(Int);
           inbox,    \* c.incoming: indices into stream
+          \* @type: Seq(<<Str, Int>>);
           rds,      \* results of Read: <<"msg", i>> | <<"decode", i>> | <<"eof", 0>>
+          \* @type: Seq({r: Str, posted: Bool, cls: Str});
           wrs,      \* results of Write: [r |-> "ok"|"err", posted |-> BOOLEAN, cls]
+          \* @type: Int;
           nposts    \* POSTs made
 vars == <<ph, ep, hasBody, bodyClosed, stream, ended, nscan, rdone, inbox, rds, wrs, nposts>>
 
@@ -73,7 +92,10 @@ Init == /\ ph = "init" /\ ep = "" /\ hasBody = FALSE /\ bodyClosed = FALSE
         /\ rds = <<>> /\ wrs = <<>> /\ nposts = 0
 
 \* the serial a message event carries: its rank among the non-comment events
-Serial(i) == Cardinality({j \in 1..i : stream[j] # "comment"})
+\* (written over DOMAIN stream: Apalache wants constant bounds in a range; i <= Len(stream) wherever it is used,
+\*  so this is Cardinality({j \in 1..i : stream[j] # "comment"}))
+\* @type: Int => Int;
+Serial(i) == Cardinality({j \in DOMAIN stream : j <= i /\ stream[j] # "comment"})
 
 Connect(status) ==
   /\ ph = "init"
@@ -170,7 +192,9 @@ PostTarget == /\ nposts > 0 => ep # ""
 WriteResult == \A i \in DOMAIN wrs : wrs[i].r = "ok" <=> (wrs[i].posted /\ Is2xx(wrs[i].cls))
 \* K4: the successful and the undecodable Reads walk through the non-comment events in order, none skipped
 ReadOrder ==
-  LET taken == SelectSeq(rds, LAMBDA r : r[1] # "eof") IN
+  LET \* @type: <<Str, Int>> => Bool;
+      NotEof(r) == r[1] # "eof"           \* (a named LAMBDA: Apalache needs its type)
+      taken == SelectSeq(rds, NotEof) IN
   \A i \in DOMAIN taken : taken[i][2] = i
 \* K5 / K6
 EndSurfaces == \A i \in DOMAIN rds : (rds[i][1] = "eof") => \A j \in DOMAIN rds : j > i => rds[j][1] = "eof"
